@@ -18,5 +18,4 @@ NOT_APPLICABLE = {
            'base64-simd (runtime SIMD dispatch), format! and data_encoding: no layer is encodable within reach.',
     'C19': 'make_relative_path is split/filter/collect/sort/join over two symbolic strings: the smallest interesting size timed out '
            'whole (25 min, twice) and ran out of memory (14 GB) when only its tail was lifted.',
-    'C20': 'pending: RAM bundle harnesses not yet registered',
 }
